@@ -1,6 +1,6 @@
 CONSTANTS WeekLen = 2  Accept = 1  RotTrigger = 3  CatchUpBound = 4  CapPct = 135
  Defects = {}
- MaxSeen = 4
+ MaxSeen = @MaxSeen@
 SPECIFICATION MCSpec
 VIEW MCView
 INVARIANTS SlotIsFunctionOfSet IndexInBounds SelfConsistent
